@@ -23,6 +23,7 @@ try:
         if p.returncode != 0:
             raise SystemExit("patch does not apply to HEAD: " + p.stderr[:500])
     sh("git reset -q", cwd=wt)
+    sh("git add -A -N .", cwd=wt)  # files the change adds belong to the patch too
     patch = sh("git diff", cwd=wt, check=True).stdout
     if not patch.strip(): raise SystemExit("empty patch")
     suite = sh("go build ./... && go test -vet=off -count=1 ./...", cwd=wt)
@@ -33,7 +34,7 @@ try:
     shutil.copy(demo_src, os.path.join(wt, "zz_demo_test.go"))
     cmd = "go test -vet=off -count=1 %s -run 'TestDemoM%s$' ." % ("-race" if race else "", k)
     with_mut = sh(cmd, cwd=wt)
-    sh("git checkout -q -- .", cwd=wt)
+    sh("git reset -q && git checkout -q -- . && git clean -fdq -e zz_demo_test.go", cwd=wt)
     without = sh(cmd, cwd=wt)
     res = dict(suite_passes_with_change=suite_ok, demo_fails_with_change=with_mut.returncode != 0, demo_passes_without_change=without.returncode == 0)
     print(sid, res)
